@@ -221,6 +221,10 @@ def run_case(case):
         # plain pass-through mapping: {'s': None}  == any value of source field 's'
         fields['s'] = None if rng.random() < 0.5 else {}
         ref_fields['s'] = {'name': 's', 'aggregate': 'any', '_name_given': True}
+    if mode != 'dedup' and boot.rng(case['seed'], 'C11', 'nofields', case['idx']).random() < 0.06:
+        # no fields at all (the documented default): the join still matches, filters (inner) and appends (full-outer)
+        fields, ref_fields = {}, {}
+        cov.setdefault('config', {})['empty_fields_mapping/' + mode] = 1
     source_delete = rng.random() < 0.6
     cfg = {'mode': mode, 'source_key': source_key, 'target_key': target_key, 'fields': fields,
            'source_delete': source_delete, 'shape': shape, 'ns': ns, 'nt': nt}
